@@ -4195,8 +4195,9 @@ class EntityMeta(type):
         query_attrs = {attr: value is None for attr, value in avdict.items()}
         limit = 2 if not unique else None
         sql, adapter, attr_offsets = entity._construct_sql_(query_attrs, False, limit, for_update, nowait, skip_locked)
-        arguments = adapter(avdict)
         if for_update: database._get_cache().immediate = True
+        database._get_cache().prepare_connection_for_query_execution()  # flush first: a new object used as a criterion gets its primary key
+        arguments = adapter(avdict)
         cursor = database._exec_sql(sql, arguments)
         objects = entity._fetch_objects(cursor, attr_offsets, 1, for_update, avdict)
         return objects[0] if objects else None
